@@ -478,3 +478,17 @@ package meta
 //@   callee metabase.getParentID
 //@   pureeffect
 //@   requires [lookup_uses_a_cursor_of_its_own] cursorOfItsOwn(a0)
+
+// An address may carry a garbage mark without an object entry (marked before the object
+// arrived, or a virtual parent). Removing its metadata must still take the mark away -
+// otherwise an object stored there later is born "not found" - so the path that answers
+// "not a physical object" for a missing entry runs only after the mark was looked up.
+//@ ghost pred garbageMarkLookedUp() bool
+//@ callrule c01_delete_looks_the_garbage_mark_up in deleteMetadata
+//@   property C01
+//@   callee (*bbolt.Cursor).Seek
+//@   pureeffect
+//@   defines len(a0) > 0 && a0[0] == metaPrefixGarbage ==> garbageMarkLookedUp()
+//@ func deleteMetadata
+//@   property C01
+//@   ensures [missing_entry_still_loses_its_garbage_mark] !haveObject ==> garbageMarkLookedUp()
